@@ -14,11 +14,12 @@ import (
 func main() {
 	observe := flag.String("observe", "", "scenario file")
 	repeat := flag.Int("repeat", 1, "repetitions")
+	budget := flag.Int("budget", 6000, "fault-point budget of each run (must be the one the caller used)")
 	flag.Parse()
 	sc, err := core.Load(*observe)
 	if err != nil {
 		fmt.Fprintln(os.Stderr, err)
 		os.Exit(2)
 	}
-	fmt.Print(c08.Observe(sc, *repeat))
+	fmt.Print(c08.Observe(sc, *repeat, *budget))
 }
